@@ -806,5 +806,19 @@ m('resumable-buffer-recycled-after-store','C02',GCS,
 	w.Header().Set("x-goog-generation", strconv.FormatInt(meta.Generation, 10))''','''	g.uploadIds.Remove(id)
 	u.data = u.data[:0] // keep the capacity for a retry of the same upload id
 	w.Header().Set("x-goog-generation", strconv.FormatInt(meta.Generation, 10))''','R77/','the stored object shares its bytes with a buffer that is written again')
+# ---- C11 / R78: a page is bounded by maxResults
+m('list-prefixes-do-not-count','C11','storage/gcsemu/walk.go',
+  '''		if count >= maxResults {
+			moreResults = true
+			return errAbort
+		}
+		count++
+
+		if delimiter != "" {''','''		if count >= maxResults {
+			moreResults = true
+			return errAbort
+		}
+
+		if delimiter != "" {''','R78/','collapsed prefixes are not counted: a page can hold any number of them')
 json.dump(M, open('/verif/mutants.json','w'), indent=1)
 print(len(M),'mutants')
